@@ -14,7 +14,7 @@ PROP = "C11"
 EV_OP, EV_OP_RET, EV_HOOK_START, EV_HOOK_STOP, EV_CB, EV_LATE, EV_FAULT, EV_RES, EV_TIMEOUT, EV_NOTE = range(1, 11)
 (OP_CREATE, OP_THREADS_CREATE, OP_ATTACH_FIRST, OP_SENDERS_START, OP_SENDERS_STOP, OP_ARM_EVENTS,
  OP_SHUTDOWN_MAIN, OP_SHUTDOWN_EXT, OP_SHUTDOWN_POOL, OP_WAIT_MAIN, OP_WAIT_POOL, OP_DESTROY_MAIN, OP_DESTROY_POOL,
- OP_SLEEP_US, OP_GO, OP_JOIN_HELPERS, OP_THREADS_CREATE_AGAIN) = range(1, 18)
+ OP_SLEEP_US, OP_GO, OP_JOIN_HELPERS, OP_THREADS_CREATE_AGAIN, OP_GATE, OP_FLOOD, OP_UNGATE) = range(1, 21)
 OPN = {v: k for k, v in list(globals().items()) if k.startswith("OP_")}
 FK = ["none", "calloc", "epoll_create1", "pipe2", "epoll_ctl", "pthread_create"]
 EBUSY, EDEADLK = 16, 35
@@ -123,6 +123,21 @@ def gen_histories(tier, seed):
         if rng.below(4) == 0:
             ops.append((OP_SLEEP_US, 2000))
         out.append(mk(rng, ops, family=fam, **st))
+    # shutdown while a busy worker's message queue is completely full (the stop request must not get lost)
+    for i in range(4 * scale):
+        st = settings()
+        pool = st["pool"]
+        w = rng.below(pool)
+        ops = [(OP_CREATE, 0), (OP_THREADS_CREATE, 0), (OP_SLEEP_US, 300), (OP_GATE, w), (OP_FLOOD, w)]
+        sv = rng.below(3)
+        if sv == 0:
+            ops += [(OP_SHUTDOWN_MAIN, 0)]
+        elif sv == 1 and pool > 1:
+            ops += [(OP_SHUTDOWN_POOL, (w + 1) % pool), (OP_GO, 0), (OP_SLEEP_US, 3000)]
+        else:
+            ops += [(OP_SHUTDOWN_EXT, 0), (OP_GO, 0), (OP_JOIN_HELPERS, 0)]
+        ops += [(OP_UNGATE, 0), (OP_WAIT_MAIN, 1), (OP_DESTROY_MAIN, 0)]
+        out.append(mk(rng, ops, family="shutdown-with-full-queue", **st))
     for i, sc in enumerate(out):
         sc["index"] = i
     return out
